@@ -208,6 +208,7 @@ func corpusDecls() []*modSpec {
 			Files: append([]modFile{{"models.go", src}}, extra...)}
 	}
 	return []*modSpec{
+		mk("decls-tables-with-foreign-keys", "package models\n\nimport \"database/sql\"\n\ntype IdTeacher int64\ntype IdCourse int64\n\ntype Course struct {\n\tId IdCourse\n\tIdTeacher IdTeacher\n\tAssistant sql.NullInt64 `gomacro-sql-foreign:\"Teacher\"`\n\tTitle string\n}\n\ntype Teacher struct {\n\tId IdTeacher\n\tName string\n}\n\ntype Plain struct {\n\tId int64\n\tLabel string\n}\n\ntype Ref struct {\n\tIdPlain int64 `gomacro-sql-foreign:\"Plain\"`\n\tIdCourse IdCourse\n}\n"),
 		mk("decls-arrays-sharing-an-alias", "package models\n\ntype Small struct{ P [2]int }\ntype Wide struct{ P [2]int64 }\ntype F struct {\n\tA [3]float32\n\tB [3]float64\n\tC [2]uint8\n\tD [2]int\n}\n"),
 		mk("decls-arrays-sharing-an-alias-reversed", "package models\n\ntype Wide struct{ P [2]int64 }\ntype Small struct{ P [2]int }\n"),
 		mk("decls-shared-anonymous-containers", "package models\n\ntype ID int64\ntype E int\n\nconst (\n\tE0 E = iota\n\tE1\n)\n\ntype A struct {\n\tL []int\n\tM map[string]ID\n\tN [][]E\n}\ntype B struct {\n\tL []int\n\tM map[string]ID\n\tN [][]E\n\tO map[ID][]int\n}\ntype C struct {\n\tA A\n\tB []B\n\tO map[ID][]int\n}\n"),
